@@ -373,6 +373,7 @@ impl std::str::FromStr for Codes {
             "Delta" => Ok(Codes::Delta),
             "Omega" => Ok(Codes::Omega),
             "VByteBe" => Ok(Codes::VByteBe),
+            "VByteLe" => Ok(Codes::VByteLe),
 
             _ => {
                 let mut parts = s.split('(');
